@@ -246,7 +246,7 @@ def json_num(r, x):
 def gen_tfjson(r):
     keys = ["x", "y", "z", "qx", "qy", "qz", "qw"]
     q = rand_quat(r)
-    vals = {"x": rand_value(r, "p") if r.random() < 0.3 else r.uniform(-50, 50), "y": r.uniform(-50, 50), "z": float(r.randint(-5, 5)),
+    vals = {"x": r.choice([r.uniform(-50, 50), 4.0e6 + r.uniform(0, 1e5), r.uniform(-1, 1) * 10.0 ** r.randint(-30, 30)]), "y": r.uniform(-50, 50), "z": float(r.randint(-5, 5)),
             "qw": q[0], "qx": q[1], "qy": q[2], "qz": q[3]}
     label = "ok"
     k = r.random()
@@ -555,6 +555,9 @@ def judge_tfjson(ctx, case, impl, outs):
     m = outs[0]
     st = impl["status"]
     d = parse_json_ref(case["text"])
+    if any(isinstance(v, float) and not math.isfinite(v) for v in d.values()):
+        ctx.skipped += 1            # literal overflowing binary64: outside the modelled domain
+        return
     keys = ("x", "y", "z", "qx", "qy", "qz", "qw")
     complete = all(k in d for k in keys)
     sc = d.get("scale", 1.0)
